@@ -400,6 +400,8 @@ func runC18(e *Engine, r *Report) {
 	ruleTransferTarget(e, r)
 	borrow(e, r, "C20", "TBL-import-validators")
 	borrow(e, r, "C03", "GD-campaign")
+	// read-confirmation quorums count distinct voting members: the confirmation bookkeeping of the read index (C06)
+	borrow(e, r, "C06", "GD-confirm")
 }
 
 func itoa(i int) string {
